@@ -325,23 +325,23 @@ Lemma rev_rep {A} k (c : A) : rev (rep k [c]) = rep k [c].
 Proof. induction k as [|k IH]; [reflexivity|]. cbn [rep app rev]. rewrite IH. apply rep_single_comm. Qed.
 
 (* the statement JsGen writes for {print e|ds}:  buf += <cgen_print_expr (autoescape mode) ds e>; *)
-Theorem cgen_print_dirs e ds fuel st : (S (cdepth e) < fuel)%nat ->
+Theorem cgen_print_dirs e ds lv fuel st : (S (cdepth e) < fuel)%nat -> cwf lv e = true -> lvok lv (j_scope st) ->
   exists stf, jwalk o fuel (NPrint 0 (cnode e) (map pdir_node ds)) st = Ok (tt, stf)
     /\ j_out stf = rev ([CText (indent_text (j_indent st)); CName (j_buf st); CText t_pluseq]
                         ++ jprint (cgen_print_expr (j_auto st) ds (cgen (j_scope st) e)) ++ [CText t_semi_nl]) ++ j_out st
     /\ j_indent stf = j_indent st /\ j_buf stf = j_buf st /\ j_scope stf = j_scope st /\ j_auto stf = j_auto st /\ j_n stf = j_n st.
 Proof.
-  intro Hf. destruct fuel as [|f]; [lia|]. rewrite jwalk_S. cbn [soydoc_flags].
+  intros Hf Hwf Hlv. destruct fuel as [|f]; [lia|]. rewrite jwalk_S. cbn [soydoc_flags].
   set (st1 := jset_cur None st).
   assert (H1 : j_auto st1 = j_auto st /\ j_indent st1 = j_indent st /\ j_buf st1 = j_buf st /\ j_scope st1 = j_scope st /\ j_out st1 = j_out st /\ j_n st1 = j_n st)
     by (subst st1; destruct st; cbn; auto 10).
-  destruct H1 as (A1 & I1 & B1 & S1 & O1 & N1). rewrite <- A1, <- I1, <- B1, <- S1, <- O1, <- N1. clearbody st1.
+  destruct H1 as (A1 & I1 & B1 & S1 & O1 & N1). rewrite <- S1 in Hlv. rewrite <- A1, <- I1, <- B1, <- S1, <- O1, <- N1. clearbody st1.
   cbn [jwalk_node]. unfold visit_print. erewrite jbind_ok; [|reflexivity].
   destruct (print_scan_subset ds (j_auto st1) [] st1) as (c & Es). erewrite jbind_ok; [|exact Es]. cbn [app].
   set (st2 := set_called c st1).
   assert (H2 : j_auto st2 = j_auto st1 /\ j_indent st2 = j_indent st1 /\ j_buf st2 = j_buf st1 /\ j_scope st2 = j_scope st1 /\ j_out st2 = j_out st1 /\ j_n st2 = j_n st1)
     by (subst st2; destruct st1; cbn; auto 10).
-  destruct H2 as (A2 & I2 & B2 & S2 & O2 & N2). rewrite <- I2, <- B2, <- S2, <- O2, <- N2. clearbody st2.
+  destruct H2 as (A2 & I2 & B2 & S2 & O2 & N2). rewrite <- S2 in Hlv. rewrite <- I2, <- B2, <- S2, <- O2, <- N2. clearbody st2.
   (* the directives kept: k explicit escapes, plus the implicit one *)
   set (k := length (filter is_esc ds)).
   assert (Hk : exists k', (if (match ds with [] => j_auto st1 | _ => 2 end) =? 2 then escs ds else escs ds ++ [(n_escapeHtml, [])])
@@ -355,7 +355,7 @@ Proof.
   unfold bufname. erewrite jbind_ok; [|erewrite jbind_ok; [reflexivity|reflexivity]].
   erewrite jbind_ok; [|apply jemit_out]. rewrite rev_rep.
   erewrite jbind_ok; [|apply print_opens_escs].
-  erewrite jbind_ok; [|apply cgen_print; lia].
+  erewrite jbind_ok; [|apply (cgen_print o e lv); [lia|exact Hwf|rewrite ?scope_out; exact Hlv]].
   erewrite jbind_ok; [|apply print_closes_escs].
   rewrite jtxt_out. eexists. split; [reflexivity|]. split.
   - rewrite !j_out_st_out, j_out_st_after, !j_out_st_out, !scope_out, !buf_out. rewrite jprint_esc_n.
